@@ -21,6 +21,8 @@
 //   14 r                digest of the serialized image (value-semantics scripts)
 //   15 r                query in place
 //   16 r s              r := deserialize(serialize(s))                   (r free)
+//   18 r s              r := s.get_result()   (s a var_opt_union; r free)
+//   21 r start count stride wmod mv   bulk update: item start + i*stride, weight 1 + i % wmod, for i < count
 //   20 n                arm: the n-th Item copy construction of the next operation throws
 //   99                  destroy every register; R: live_items item_slots live_bytes live_blocks flags
 #include "ledger_objs.hpp"
@@ -83,6 +85,11 @@ static void body(const Line& t, Out& o, long& retained) {
   case 13: { Obj& a = get(t.at(1)); Obj& b = get(t.at(2)); Obj& c = get(t.at(3)); b.copy_assign(c); a.copy_assign(b); retained = a.retained(); break; }
   case 15: { Obj& r = get(t.at(1)); r.query(); retained = r.retained(); break; }
   case 16: { need_free(t.at(1)); Obj& s = get(t.at(2)); { std::unique_ptr<Obj> p(s.roundtrip()); regs[(long)t.at(1)] = std::move(p); } retained = get(t.at(1)).retained(); break; }
+  case 18: { need_free(t.at(1)); Obj& s = get(t.at(2)); { std::unique_ptr<Obj> p(s.result()); regs[(long)t.at(1)] = std::move(p); } retained = get(t.at(1)).retained(); break; }
+  case 21: { Obj& s = get(t.at(1)); const int64_t start = (int64_t)t.at(2), n = (int64_t)t.at(3), stride = (int64_t)t.at(4), wmod = (int64_t)t.at(5);
+    Out scratch;   // hashes of bulk updates are not reported
+    for (int64_t i = 0; i < n; ++i) { scratch.clear(); s.update(start + i * stride, 1 + (wmod > 0 ? i % wmod : 0), t.at(6) != 0, scratch); }
+    retained = s.retained(); break; }
   default: throw std::invalid_argument("unknown op");
   }
 }
@@ -94,7 +101,7 @@ static void handler(const Line& t, Out& o) {
   if (op == 99) {
     s.flags = 0; regs.clear();
     o.R(s.live_items); o.R(s.item_slots); o.R(s.live_bytes); o.R((I)s.blocks.size()); o.R(s.flags & HYGIENE);
-    reset_tracking(); return;
+    reset_tracking(); caller_pool().clear(); return;
   }
   if (op == 14) { Obj& r = get(t.at(1)); s.flags = 0; const uint64_t d = r.digest(); o.R((I)d); o.R(r.retained()); o.R(s.live_items); o.R(s.item_slots); o.R(s.flags & HYGIENE); return; }
   s.flags = 0;
@@ -109,5 +116,5 @@ static void handler(const Line& t, Out& o) {
 }
 
 int main(int argc, char** argv) {
-  return vh::run_main(argc, argv, [] { regs.clear(); pending_arm = -1; reset_tracking(); }, handler);
+  return vh::run_main(argc, argv, [] { regs.clear(); pending_arm = -1; reset_tracking(); caller_pool().clear(); }, handler);
 }
